@@ -66,12 +66,13 @@ UNIVERSES = {
     "selfkeyed": dict(items=["a", "b", "c", "d"], key=None, keyf=lambda x: x, mk="KeyedList({items})", typed=None),
     "explicit": dict(items=[(k, p) for k in "abc" for p in (0, 1)], key=tkey, keyf=tkey,
                      mk="KeyedList({items}, key=tkey)", typed=None),
-    "spec": dict(items=[Item(k, p=p) for k in "abc" for p in (0, 1)], key=None, keyf=lambda x: x.k,
+    "spec": dict(items=[Item(k, p=p) for k in "abc" for p in (0, 1)], key=None, keyf=lambda x: x.k if isinstance(x, Item) else x,
                  mk="KeyedList({items})", typed=None),
     "intkeyed": dict(items=[IntKeyed(k, p) for k in (0, 1, 2) for p in (0, 1)], key=ikey, keyf=ikey,
                      mk="KeyedList({items}, key=ikey)", typed=None),
     "equalitems": dict(items=[EqItem(k, p) for k, p in (("a", 0), ("b", 0), ("c", 1), ("d", 1))], key=ikey, keyf=ikey,
                        mk="KeyedList({items}, key=ikey)", typed=None),
+    "falsy": dict(items=[(), [], "", (1,), [1], (1, 2)], key=len, keyf=len, mk="KeyedList({items}, key=len)", typed=None),
     "typed": dict(items=["a", "b", "c", 7], key=None, keyf=lambda x: x, mk="KeyedList[str, str]({items})",
                   typed=(str, str)),
 }
